@@ -42,7 +42,7 @@ def decorate(lines, lang_name, rnd, pick, header=False, tags_entry=False):
             if c == "Doc" and ln["a"] == q:
                 ln["pad"] = pad0
                 in_doc = None
-                trail = rnd.choice([u"", u"", u"  "])
+                trail = rnd.choice([u"", u"", u"  ", u"\t", u" \t "])          # blanks after the closing quotes
             else:
                 ln["pad"] = pad0 + u" " * ln0.get("ind", 0)
                 if c == "_":
@@ -51,6 +51,8 @@ def decorate(lines, lang_name, rnd, pick, header=False, tags_entry=False):
             if c == "Doc":
                 ln["pad"] = rnd.choice(SPACE_PADS)
                 in_doc = (ln["a"], ln["pad"])
+                # invisible blanks after the opening quotes: the indentation is the column of the quotes, nothing else
+                trail = rnd.choice([u"", u" ", u"   ", u"\t", u"  \t", u"      "])
             else:
                 ln["pad"] = rnd.choice(PADS)
                 trail = rnd.choice([u"", u"", u"", u" ", u"  \t"])
